@@ -58,6 +58,11 @@ def r2(ctx):
             extra = [l for l in lits if not (l[0] == 'is' and is_call(l[1], 'Iterator::next'))]
             if any(is_call(x, 'Tree::terminal_indices') for x in walk(a[1])) and a[2] == ('param', 'aff_func') and not extra:
                 ok = True
+            # every node of a traversal from the root, those that are leaves: the same set as terminal_indices() on a tree whose nodes are
+            # all reachable (C12); the rewrite touches values only, so the traversal is not disturbed
+            extra2 = [l for l in lits if not (l[0] == 'is' and is_call(l[1], 'DfsPre::next', 'Bfs::next'))]
+            if prune.full_traversal_item(a[1]) and a[2] == ('param', 'aff_func') and prune.leaf_guard(extra2, a[1]) and len(extra2) == 1:
+                ok = True
         if not ok and not list(b.calls_to('AffTree::apply_func_at_node')):
             # the same rewrite done in place: for every item t of terminals_mut(): t.value.aff := aff_func ∘ t.value.aff, unconditionally
             ws = [w for w in content_field_writes(F, 'aff') if w[0] is b]
